@@ -8,13 +8,14 @@ package bpool
 //	idx <v>                       -> next=.. prev=.. nextG=.. prevG=..   (the four log2 helpers)
 //	reset <bytes|slices>          -> ok        (fresh pools, fresh id table)
 //	new <kind> <slot> <cap>       -> buf=<id>  (caller allocates a foreign buffer, len 0)
-//	get <kind> <n> <slot>         -> buf=<id> new=<0|1> len=.. cap=.. dirty=..  | PANIC
+//	get <kind> <n> <slot>         -> buf=<id> new=<0|1> len=.. cap=.. dirty=.. hdirty=..  | PANIC
 //	put <kind> <slot> <len> <m>   -> ok | bad-slot | PANIC
 //	    len = -1: B kept as is, else B = B[:min(len,cap)];  m: k keep contents, z zero all,
 //	    v [0,len) non-zero rest zero, h [len,cap) non-zero rest zero, a all non-zero.
 //
 // `buf` ids are first-seen indices of the buffer object (pointer identity), `new=1` when the
-// object was not known before (allocated by Get).  `dirty` counts non-zero elements in [0,len).
+// object was not known before (allocated by Get).  `dirty` counts non-zero elements in [0,len),
+// `hdirty` those in [len,cap) (not part of the property, compared with the model only).
 
 import (
 	"bufio"
@@ -113,13 +114,17 @@ func (s *verifC42State) step(line string) (res string) {
 				s.idsB[b] = id
 			}
 			s.slotsB[ws[3]] = b
-			dirty := 0
-			for _, x := range b.B {
+			dirty, hdirty := 0, 0
+			for i, x := range b.B[:cap(b.B)] {
 				if x != 0 {
-					dirty++
+					if i < len(b.B) {
+						dirty++
+					} else {
+						hdirty++
+					}
 				}
 			}
-			return fmt.Sprintf("buf=%d new=%d len=%d cap=%d dirty=%d", id, verifC42B2I(!known), len(b.B), cap(b.B), dirty)
+			return fmt.Sprintf("buf=%d new=%d len=%d cap=%d dirty=%d hdirty=%d", id, verifC42B2I(!known), len(b.B), cap(b.B), dirty, hdirty)
 		}
 		b := GetByteSlicesBuf(n)
 		id, known := s.idsS[b]
@@ -129,13 +134,17 @@ func (s *verifC42State) step(line string) (res string) {
 			s.idsS[b] = id
 		}
 		s.slotsS[ws[3]] = b
-		dirty := 0
-		for _, x := range b.B {
+		dirty, hdirty := 0, 0
+		for i, x := range b.B[:cap(b.B)] {
 			if x != nil {
-				dirty++
+				if i < len(b.B) {
+					dirty++
+				} else {
+					hdirty++
+				}
 			}
 		}
-		return fmt.Sprintf("buf=%d new=%d len=%d cap=%d dirty=%d", id, verifC42B2I(!known), len(b.B), cap(b.B), dirty)
+		return fmt.Sprintf("buf=%d new=%d len=%d cap=%d dirty=%d hdirty=%d", id, verifC42B2I(!known), len(b.B), cap(b.B), dirty, hdirty)
 	case "put":
 		n, err := strconv.Atoi(ws[3])
 		if err != nil {
